@@ -186,7 +186,7 @@ func c11Tags(r *h.Rng, res *h.Result, n int) error {
 			res.Count("tags:" + kind + "-error")
 		}
 		if kind == "tags" {
-			ops = append(ops, "c11tags "+c.ser()+" "+ser)
+			ops = append(ops, "c11tags "+c.ser()+" "+hx(c.planner().TracesKVDistTable)+" "+ser)
 		} else {
 			ops = append(ops, "c11values "+c.ser()+" "+hx(c.planner().TracesKVDistTable)+" "+h.Hex([]byte(key))+" "+ser)
 		}
@@ -229,6 +229,23 @@ func c11(r *h.Result, rng *h.Rng, tier string, replay string) error {
 		if rp.Replay.Kind == "sem" {
 			return c11Sem(rng.Fork(), r, 1, 4, &rp.Replay.Case)
 		}
+		var rw struct {
+			Replay struct {
+				Kind string      `json:"kind"`
+				Case tqWholeCase `json:"case"`
+			} `json:"replay"`
+		}
+		if err := json.Unmarshal(b, &rw); err != nil {
+			return err
+		}
+		switch rw.Replay.Kind {
+		case "whole":
+			return c11Whole(rng.Fork(), r, 1, &rw.Replay.Case)
+		case "portions":
+			return c11Portions(rng.Fork(), r, 1, &rw.Replay.Case)
+		case "tagsem":
+			return c11TagSem(rng.Fork(), r, 1, &rw.Replay.Case)
+		}
 	}
 	if err := c11Text(rng.Fork(), r, n, 4, tier != "quick"); err != nil {
 		return err
@@ -240,6 +257,25 @@ func c11(r *h.Result, rng *h.Rng, tier string, replay string) error {
 		return err
 	}
 	if err := c11Sem(rng.Fork(), r, n/2, 4, nil); err != nil {
+		return err
+	}
+	if err := c11Parse(rng.Fork(), r, n); err != nil {
+		return err
+	}
+	if err := c11Whole(rng.Fork(), r, n/2, nil); err != nil {
+		return err
+	}
+	if err := c11TagSem(rng.Fork(), r, n/4, nil); err != nil {
+		return err
+	}
+	if err := c11TagsAPI(rng.Fork(), r, n/6); err != nil {
+		return err
+	}
+	np := 60
+	if tier != "quick" {
+		np = 600
+	}
+	if err := c11Portions(rng.Fork(), r, np, nil); err != nil {
 		return err
 	}
 	return nil
